@@ -1292,7 +1292,8 @@ fn c19(args: Args) {
          the server's own 'received' / 'done - success|failure' lines are time-stamped on arrival. Oracle: every answer equals \
          the answer of one generation that can have been in force at some instant between send and receive; after an observed \
          'done - success' only the new one, after 'done - failure' only the previous one; no mixed answers; no query without a \
-         reply (3 transmissions); the process stays up. non-trivial = query whose flight overlapped a reload or followed one; \
+         reply (3 transmissions); over the reloads that take >= 100 ms, some query sent during a reload is answered during \
+         it; the process stays up. non-trivial = query whose flight overlapped a reload or followed one; \
          distinct = distinct (probe, generation seen, reload index).",
     );
     run.assume("every file is replaced by temp file + rename (the temp file outside the listed directories), so the server never reads a half-written file; edits are made between reloads, except in the edit-while-reloading steps, where the load that overlaps the edit may see each file in either generation and only the state after the last reload is judged strictly");
@@ -1683,6 +1684,51 @@ fn c19(args: Args) {
                 json!({"kind": "query", "probe": show_name(&pr[ql.probe].0), "seen": format!("{:?}", ql.seen),
                        "sent_ms": ql.sent.duration_since(start).as_millis() as u64, "received_ms": ql.received.duration_since(start).as_millis() as u64,
                        "epochs": epochs.iter().map(|e| json!({"g": e.g, "has_extra": e.has_extra, "possible_from_ms": e.possible_from.duration_since(start).as_millis() as u64, "certain_from_ms": e.certain_from.duration_since(start).as_millis() as u64})).collect::<Vec<_>>()}),
+            );
+        }
+    }
+    // ---- "keeps answering throughout", as bounded progress: during reloads that take >= 100 ms (between the server's
+    // own 'received' and 'done' lines as seen here) some query sent inside the window is also answered inside it,
+    // 20 ms before its end at the latest.  Judged over all long reloads together: a loaded machine may starve one window.
+    {
+        let lines = server.lines.lock().unwrap().clone();
+        let mut windows: Vec<(Instant, Instant)> = Vec::new();
+        let mut open: Option<Instant> = None;
+        for (t, l) in &lines {
+            if l.contains("received") {
+                open.get_or_insert(*t);
+            } else if l.contains("done - ") {
+                if let Some(t0) = open.take() {
+                    windows.push((t0, *t));
+                }
+            }
+        }
+        let mut by_sent: Vec<(Instant, Instant)> = logs.iter().map(|q| (q.sent, q.received)).collect();
+        by_sent.sort();
+        let margin = Duration::from_millis(20);
+        let (mut long, mut long_with_answers, mut answered_inside, mut sent_inside) = (0u64, 0u64, 0u64, 0u64);
+        for (t0, t1) in &windows {
+            if t1.duration_since(*t0) < Duration::from_millis(100) {
+                continue;
+            }
+            long += 1;
+            let from = by_sent.partition_point(|q| q.0 < *t0);
+            let to = by_sent.partition_point(|q| q.0 < *t1 - margin);
+            let inside = by_sent[from..to].iter().filter(|q| q.1 <= *t1 - margin).count() as u64;
+            sent_inside += (to - from) as u64;
+            answered_inside += inside;
+            if inside > 0 {
+                long_with_answers += 1;
+            }
+        }
+        sh.count("reloads-of-100ms-or-more", long);
+        sh.count("reloads-of-100ms-or-more-with-a-query-answered-inside", long_with_answers);
+        sh.count("queries-sent-and-answered-inside-a-long-reload", answered_inside);
+        if long >= 3 && answered_inside == 0 && alive {
+            sh.violation(
+                "C19:no-query-answered-while-a-reload-was-running",
+                format!("{long} reloads took 100 ms or more; {sent_inside} queries were sent during them and not one was answered before the reload was over"),
+                json!({"kind": "progress", "long_reloads": long, "queries_sent_inside": sent_inside}),
             );
         }
     }
